@@ -86,24 +86,46 @@ def a1(fb, chk, tag=""):
                 probs.add("a success path lacks the fact body.is_valid()")
             if not returns_files and acc["fds"] != "none":
                 probs.add("a success path accepts a reply carrying descriptors (fact `no descriptors` missing)")
-            if f.name.endswith("_with_payload") or "recv_payload_into_buf" in rc[1]:
-                # framing facts: declared size == body + received payload, payload fills the buffer
-                szf = lenf = False
-                for a in o.atoms:
-                    if a[0] == "cmp" and a[1] == "Eq":
-                        l, r = a[2], a[3]
-                        txt = show(l) + "|" + show(r)
-                        if "get_size(&unwrap(recv_payload_into_buf" in txt and "size_of()" in txt:
-                            szf = True
-                        if "len(" in txt and ").2" in txt:
-                            lenf = True
-                if not szf:
-                    probs.add("payload reply accepted without comparing the reply header's size with body + payload")
-                if not lenf:
-                    probs.add("payload reply accepted without the payload filling the expected length")
+            probs |= set(payload_framing(o, rc))
         chk.check(not probs and npaths >= 1, "A1", tag + who, "%d success paths carry the acceptance facts" % npaths,
                   "%s: %s" % (f.short, "; ".join(sorted(probs)) or "no success path"), f.loc())
     chk.floor("A1-receivers", nrecv, 7)
+
+
+PAYLOAD_RECVS = {"recv_payload", "recv_payload_into_buf", "recv_data"}
+
+
+def payload_framing(o, first_recv):
+    """Problems with how a variable-length payload is received on this success path: its length must
+    come from the *received* header's size field and the bytes received must equal that length."""
+    probs = []
+    for a in o.atoms:
+        if a[0] != "ok" or a[1][0] != "call" or a[1][1] not in PAYLOAD_RECVS:
+            continue
+        call = a[1]
+        if call[1] == "recv_payload_into_buf" and server.same_call(call, first_recv):
+            probs.append("the payload is received together with the header, so its length cannot come from the reply's own "
+                         "size field (a reply with a shorter payload, e.g. the failure encoding, blocks the caller)")
+            continue
+        ln = call[2][1] if len(call[2]) > 1 else None
+        if ln is None:
+            continue
+        from_reply = False
+        for s_ in subterms(ln):
+            if s_[0] == "call" and s_[1] == "get_size" and s_[2]:
+                if any(server.same_call(x, first_recv) for x in subterms(s_[2][0]) if x[0] == "call"):
+                    from_reply = True
+        if not from_reply:
+            probs.append("payload length %s does not derive from the received reply header's size field" % show(ln)[:80])
+        tied = False
+        for b in o.atoms:
+            if b[0] == "cmp" and b[1] == "Eq":
+                txt = show(b[2]) + "|" + show(b[3])
+                if "len(" in txt and call[1] in txt:
+                    tied = True
+        if not tied:
+            probs.append("payload accepted without the fact `bytes received == declared payload length`")
+    return probs
 
 
 def a2(fb, chk):
@@ -285,7 +307,22 @@ def _req_file_policy(fb, o):
     return bool(codes) and codes <= one and applied
 
 
+def _req_payload_bounded(fb, o):
+    """every caller of the payload receiver passes a length bounded by MAX_MSG_SIZE (must-facts)."""
+    from .panics import upper_bound
+    n = 0
+    for f in fb.fns.values():
+        for bb, t, c in sites(f, name="recv_payload", self_adt="Endpoint"):
+            n += 1
+            m = must_of(fb, f)
+            ub = upper_bound(fb, m, m.sym.arg_terms(bb)[1], m.atoms_at(bb))
+            if ub is None or ub > wire.MAX_MSG_SIZE:
+                return False
+    return n >= 1
+
+
 A4_TABLE = {
+    "Endpoint::recv_payload:from_elem:*": ("C", "callers bound the payload length by the requested length <= MAX_MSG_SIZE", _req_payload_bounded, 1),
     "FrontendReqHandler::handle_request:unwrap:*": ("C", "the attached-file policy accepted: exactly one file for this request code (A3)", _req_file_policy, 2),
     "FrontendReqHandler::handle_request:index:*": ("C", "the attached-file policy accepted: exactly one file for this request code (A3)", _req_file_policy, 2),
     "FrontendReqHandler::send_ack_message:OverflowNeg:*": ("C", "negated value is an errno supplied by the application's handler (never i32::MIN), not peer input", None, 2),
